@@ -254,7 +254,37 @@ Inductive case :=
 (** fuzzing record for a batch of 16 inputs: language, total input length, worst outcome of the
     batch: 0 = no failure and at least one input accepted, 1 = all rejected with an error,
     2 = panic, 3 = crash (stack overflow / abort of the child process), 4 = watchdog timeout. *)
-| CFuzz (lang len outcome : N).
+| CFuzz (lang len outcome : N)
+(** deep-nesting record: language, the input as (repeated prefix, core, repeated suffix, depth),
+    outcome 0 = Ok, 1 = Err, 2 = panic, 3 = other crash of the child process, 4 = watchdog
+    timeout, 5 = stack overflow (Rust's handler printed 'has overflowed its stack' and the
+    child was killed by SIGABRT / SIGSEGV). *)
+| CDeep (lang : N) (pre core suf : list N) (depth : N) (outcome : N).
+
+(** The text of a deep-nesting case: pre^depth ++ core ++ suf^depth. *)
+Definition deep_text (pre core suf : list N) (depth : N) : list N :=
+  N.iter depth (fun t => pre ++ t) (core ++ N.iter depth (fun t => suf ++ t) []).
+
+(** Nesting measure of a byte string: the maximal depth of open parentheses plus the number of
+    prefix / postfix / pattern operator characters [~ ! - + :].  For the forms the harness uses
+    (parenthesis, call and method-call towers, operator chains, pattern chains) this is the depth
+    of the syntax tree the parser has to build (twice the tower height for the '-(' form). *)
+Definition is_nest_op (c : N) : bool :=
+  (c =? 126) || (c =? 33) || (c =? 45) || (c =? 43) || (c =? 58).
+Fixpoint nest_scan (l : list N) (cur best ops : N) : N :=
+  match l with
+  | [] => best + ops
+  | c :: r =>
+    if c =? 40 then nest_scan r (cur + 1) (N.max best (cur + 1)) ops
+    else if c =? 41 then nest_scan r (cur - 1) best ops
+    else if is_nest_op c then nest_scan r cur best (ops + 1)
+    else nest_scan r cur best ops
+  end.
+Definition nest_depth (l : list N) : N := nest_scan l 0 0 0.
+
+(** Known finding deep-nesting-stack-overflow: the parsers have no nesting limit.  Inputs nested
+    at least [DEEP] levels may overflow the 8 MiB stack; below that they must be parsed. *)
+Definition DEEP : N := 500.
 
 Definition res_agrees (m : res expr) (r : ires) : bool :=
   match m, r with
@@ -269,6 +299,7 @@ Definition corr (c : case) : bool :=
   match c with
   | CAlias _ am outer e r => res_agrees (expand_aliases am outer e) r
   | CFuzz _ _ _ => true
+  | CDeep _ _ _ _ _ _ => true
   end.
 
 (** The property on the implementation's output alone: no panic, no crash; an Ok result of
@@ -282,7 +313,18 @@ Definition okb (c : case) : bool :=
     | _ => true
     end
   | CFuzz _ _ o => (o =? 0) || (o =? 1) || (o =? 4)
+  | CDeep _ _ _ _ _ o => (o =? 0) || (o =? 1)
+  end.
+
+(** Only a stack overflow on an input nested at least DEEP levels is demoted to the known
+    finding; a panic, another crash, a timeout, or an overflow on a shallower input is not. *)
+Definition knownb (c : case) : bool :=
+  match c with
+  | CDeep _ pre core suf depth o =>
+    (o =? 5) && (DEEP <=? nest_depth (deep_text pre core suf depth))
+  | _ => false
   end.
 
 Definition check_case (c : case) : N :=
-  verdict (corr c) (okb c) false (match c with CAlias _ _ _ _ _ => 1 | CFuzz _ _ _ => 2 end).
+  verdict (corr c) (okb c) (knownb c)
+          (match c with CAlias _ _ _ _ _ => 1 | CFuzz _ _ _ => 2 | CDeep _ _ _ _ _ _ => 3 end).
